@@ -414,3 +414,24 @@ struct IslandCount {
     island: RhythmIsland,
     count: usize,
 }
+
+/// Verification hook: raw output of `SpeedEvaluator::evaluate_diff_of`.
+#[cfg(rosu_pp_verif)]
+pub fn verif_evaluate_speed<'a>(
+    curr: &'a OsuDifficultyObject<'a>,
+    diff_objects: &'a [OsuDifficultyObject<'a>],
+    hit_window: f64,
+    autopilot: bool,
+) -> f64 {
+    SpeedEvaluator::evaluate_diff_of(curr, diff_objects, hit_window, autopilot)
+}
+
+/// Verification hook: raw output of `RhythmEvaluator::evaluate_diff_of`.
+#[cfg(rosu_pp_verif)]
+pub fn verif_evaluate_rhythm<'a>(
+    curr: &'a OsuDifficultyObject<'a>,
+    diff_objects: &'a [OsuDifficultyObject<'a>],
+    hit_window: f64,
+) -> f64 {
+    RhythmEvaluator::evaluate_diff_of(curr, diff_objects, hit_window)
+}
